@@ -147,6 +147,54 @@ func genC13(e *emitter, r *rng, thorough bool) {
 		c[bit/8] ^= 1 << uint(bit%8)
 		e.emit("cdec.badck", "b58.cdec "+hx([]byte(base58.Encode(append(append([]byte{}, full...), c...)))))
 	}
+	// structured multi-byte checksum errors: errors that cancel under XOR, addition or reordering of the checksum
+	// bytes (a comparison weakened to a parity / sum / set comparison accepts these, single-bit errors do not)
+	{
+		emitCk := func(class string, c []byte) {
+			if !bytes.Equal(c, ck) {
+				e.emit(class, "b58.cdec "+hx([]byte(base58.Encode(append(append([]byte{}, full...), c...)))))
+			}
+		}
+		for sub := 1; sub < 16; sub++ {
+			for _, mask := range []byte{0x01, 0x80, 0xff, byte(1 + r.intn(255))} {
+				c := append([]byte{}, ck...)
+				for j := 0; j < 4; j++ {
+					if sub>>uint(j)&1 == 1 {
+						c[j] ^= mask
+					}
+				}
+				emitCk("cdec.badck.xor", c)
+			}
+		}
+		for i := 0; i < 4; i++ {
+			for j := 0; j < 4; j++ {
+				if i == j {
+					continue
+				}
+				c := append([]byte{}, ck...)
+				c[i], c[j] = c[j], c[i]
+				emitCk("cdec.badck.swap", c)
+				c = append([]byte{}, ck...)
+				c[i]++
+				c[j]--
+				emitCk("cdec.badck.sum", c)
+				c = append([]byte{}, ck...)
+				c[j] = c[i]
+				emitCk("cdec.badck.dup", c)
+			}
+		}
+		emitCk("cdec.badck.rev", []byte{ck[3], ck[2], ck[1], ck[0]})
+		emitCk("cdec.badck.rot", []byte{ck[1], ck[2], ck[3], ck[0]})
+		emitCk("cdec.badck.sha1", crypto.Sha256(full)[:4])          // single instead of double SHA-256
+		emitCk("cdec.badck.tail", crypto.Sha256d(full)[28:])        // last instead of first four bytes
+		emitCk("cdec.badck.nover", crypto.Sha256d(full[1:])[:4])    // checksum over the payload without the version byte
+		// right checksum, other payload: one payload byte / the version byte changed
+		for _, pos := range []int{0, 1, len(full) - 1} {
+			x := append([]byte{}, full...)
+			x[pos] ^= 0x01
+			e.emit("cdec.badck.payload", "b58.cdec "+hx([]byte(base58.Encode(append(x, ck...)))))
+		}
+	}
 	for l := 0; l <= 8; l++ {
 		for k := 0; k < 4; k++ {
 			raw := r.bytes(l)
@@ -358,6 +406,32 @@ func genC06(e *emitter, r *rng, thorough bool) {
 			}
 			e.emit("parse.mut2", "der.parse "+hx(x))
 			e.emit("lax.mut2", "der.lax "+hx(x))
+		}
+	}
+	// long but consistently framed encodings: total content length up to the largest one-byte value, reached by
+	// zero-padding r, s or both (the length byte then has its top bit set: 0x80..0xfd must still be read as a
+	// plain length by the relaxed parser; strict DER must reject the padding)
+	for _, total := range []int{0x46, 0x60, 0x7e, 0x7f, 0x80, 0x81, 0x82, 0x90, 0xc8, 0xfc, 0xfd, 0xfe, 0xff} {
+		for mode := 0; mode < 3; mode++ {
+			rb, sb := derInt(randScalarLen(r, 32)), derInt(randScalarLen(r, 1+r.intn(32)))
+			extra := total - (4 + len(rb) + len(sb))
+			if extra < 0 {
+				continue
+			}
+			pr, ps := extra, 0
+			if mode == 1 {
+				pr, ps = 0, extra
+			}
+			if mode == 2 {
+				pr, ps = extra/2, extra-extra/2
+			}
+			if len(rb)+pr > 255 || len(sb)+ps > 255 {
+				continue
+			}
+			x := derOf(append(make([]byte, pr), rb...), append(make([]byte, ps), sb...))
+			e.emit("parse.longpad", "der.parse "+hx(x))
+			e.emit("lax.longpad", "der.lax "+hx(x))
+			e.emit("lax.longpad.trail", "der.lax "+hx(append(append([]byte{}, x...), 0x01)))
 		}
 	}
 	// every pair of short integers over the byte set {00,01,7f,80,ff}, correctly framed: one-byte
